@@ -259,6 +259,24 @@ Theorem C01_estimated_grid_is_not_the_timestamps :
 Proof. exact estimated_grid_differs. Qed.
 Print Assumptions C01_estimated_grid_is_not_the_timestamps.
 
+(* FINDING C01r-F1 (open, by design of the v1 / v2 readers): sensors that are extracted WHILE __init__ partitions the
+   data set into scans (v2: activity and target of the reference antenna, the labels; hence Observation/scan_state,
+   scan_index, label, compscan_index, target) are aligned with the array the cache holds at that moment
+   [construction_ts]: the estimate first + dump_period * arange(T) whenever |(last - first) / dump + 1 - T| < 1/100
+   (thresholds and branch structure re-translated from the source).  Full-strength statement refuted, partial one
+   proved: *)
+Theorem C01_construction_grid_refuted :
+  exists c, cfg_ok c /\ zlen (c_ts c) = stored_rows c /\ quick_test c (1, 100) = true
+    /\ construction_ts c <> timestamps c (Select.init (c_obs c)).
+Proof. exact construction_refuted. Qed.
+Print Assumptions C01_construction_grid_refuted.
+
+Theorem C01_construction_grid_partial : forall c, cfg_ok c -> zlen (c_ts c) = stored_rows c ->
+  c_fmt c = V3 \/ c_fmt c = V4 \/ quick_test c (1, 100) = false ->
+  construction_ts c = timestamps c (Select.init (c_obs c)).
+Proof. exact construction_partial. Qed.
+Print Assumptions C01_construction_grid_partial.
+
 (* ------------------------------------------------------------------ non-vacuity, one example per format quirk *)
 
 (* v1: scan groups of 2 + 3 dumps, milliseconds, conjugation; the indexer acquired under dumps 1..3 / 4 products keeps
